@@ -57,7 +57,7 @@ def expected_from_snapshot(cfg, world, rec, scn_step):
     snaps = rec.extra["snap"]
     # routing: which node received the command for which wire key
     route = {}
-    for nid, verb, key, detail in rec.commands:
+    for nid, verb, key, detail, _seq in rec.commands:
         if key is not None:
             route.setdefault(key, nid)
     m = model.ApiModel(cfg, _FrozenClock(rec.t0), snapshot_mode=True)
